@@ -106,7 +106,28 @@ type mdChoice struct {
 	MD     map[string][]string
 }
 
-func genMD(t *rapid.T, logical []string) mdChoice {
+// confusable builds a family of value lists that are all different but fall
+// together under any encoding of a list that merely joins its values with sep
+// (["a","b"] / ["a<sep>b"], ["a","b<sep>c"] / ["a<sep>b","c"] ...): the statement
+// says "different values ... are never placed in the same batch", and a list of
+// two values differs from a list of one.
+func confusable(sep string) [][]string {
+	return [][]string{{"a", "b"}, {"a" + sep + "b"}, {"a", "b" + sep + "c"}, {"a" + sep + "b", "c"}, {"a" + sep + "b" + sep + "c"}, {"a", "b", "c"}, {"a", "b", ""}, {"a" + sep, "b"}}
+}
+
+var confusableSeps = []string{",", ";", " ", ", ", "\x00", "|", "\n", "", "\x1f", "=", "&", "\t", ":", "/"}
+
+func genMD(t *rapid.T, logical []string, family [][]string) mdChoice {
+	if family != nil {
+		md := map[string][]string{}
+		for i, k := range logical {
+			if i > 0 && rapid.IntRange(0, 2).Draw(t, "omit") == 0 {
+				continue
+			}
+			md[caseVariant(t, k, "mdcase")] = family[rapid.IntRange(0, len(family)-1).Draw(t, "famval")]
+		}
+		return mdChoice{MD: md}
+	}
 	switch rapid.IntRange(0, 9).Draw(t, "mdkind") {
 	case 0:
 		return mdChoice{NoInfo: true}
@@ -147,8 +168,22 @@ func genScript(t *rapid.T) Script {
 	logical := append([]string{"zz"}, logicalAll...)
 	np := rapid.IntRange(1, 5).Draw(t, "palette")
 	palette := make([]mdChoice, np)
+	// one script in five: every palette entry comes from one family of confusable
+	// value lists, written for the configured keys first
+	var family [][]string
+	famLogical := logical
+	if nk > 0 && rapid.IntRange(0, 4).Draw(t, "confusable") == 0 {
+		family = confusable(rapid.SampledFrom(confusableSeps).Draw(t, "sep"))
+		famLogical = append(append([]string{}, perm[:nk]...), "zz")
+		np = rapid.IntRange(2, 5).Draw(t, "palette2")
+		palette = make([]mdChoice, np)
+	}
 	for i := range palette {
-		palette[i] = genMD(t, logical)
+		if family != nil {
+			palette[i] = genMD(t, famLogical, family)
+		} else {
+			palette[i] = genMD(t, logical, nil)
+		}
 	}
 	o := pgen.Structural()
 	o.MaxRes, o.MaxScope, o.MaxItems = 2, 2, 4
@@ -757,6 +792,32 @@ func runInner(c *vt.C, s *Script) (nontrivial bool, f *vt.Finding) {
 	c.Class(fmt.Sprintf("producers:%d", len(s.Producers)))
 	if len(groupVals) > 1 && len(s.Keys) > 0 {
 		c.Class("groups>=2")
+		// two groups whose value lists differ only in how the values are cut up
+		flat := map[string]bool{}
+		for _, gv := range groupVals {
+			var ks []string
+			for k := range gv {
+				ks = append(ks, k)
+			}
+			sort.Strings(ks)
+			var sb strings.Builder
+			for _, k := range ks {
+				sb.WriteString(k + "=")
+				for _, v := range gv[k] {
+					for _, r := range v {
+						if r >= 'a' && r <= 'z' {
+							sb.WriteRune(r)
+						}
+					}
+				}
+				sb.WriteString(";")
+			}
+			if flat[sb.String()] {
+				c.Class("groups-differing-only-in-how-values-are-cut")
+				break
+			}
+			flat[sb.String()] = true
+		}
 	}
 	if len(ref) > 0 {
 		c.Class("arrival-refused(limit)")
